@@ -168,6 +168,72 @@ theorem witnessUpdateLoop_mode_indep (γ : F) (m m' : OvfMode) (L i : ℕ) (hL :
       · simp only [witnessUpdateLoop, hb, Bool.false_eq_true, if_false, witnessUpdateLoopGuard_spec,
           outOfRange_guard_true hj, Outcome.guardThen_ok, if_true]
 
+
+/-! ## `for_issued` on the ascending list a `BTreeSet` iterates -/
+
+theorem mirror_ne_panic (m : OvfMode) (L : ℕ) (hL : SizeOk L) : ∀ l : List ℕ,
+    (∀ j ∈ l, InRange L j) → forIssued.mirror m L l ≠ .panic := by
+  intro l
+  induction l with
+  | nil => intro _; simp [forIssued.mirror]
+  | cons j js ih =>
+    intro h
+    simp only [forIssued.mirror, getIndex_spec m L j (h j (by simp)) hL, Outcome.bind_ok]
+    exact Outcome.map_ne_panic _ (ih (fun x hx => h x (List.mem_cons_of_mem _ hx)))
+
+theorem pairwise_le_getLast : ∀ (l : List ℕ), l.Pairwise (· < ·) → ∀ last, l.getLast? = some last →
+    ∀ x ∈ l, x ≤ last := by
+  intro l
+  induction l with
+  | nil => intro _ last h; simp at h
+  | cons a l ih =>
+    intro hp last hl x hx
+    cases l with
+    | nil =>
+      simp only [List.getLast?_singleton, Option.some.injEq] at hl
+      simp only [List.mem_singleton] at hx
+      omega
+    | cons b l' =>
+      have hl' : (b :: l').getLast? = some last := by simpa [List.getLast?_cons_cons] using hl
+      have hmem : last ∈ b :: l' := List.mem_of_getLast? hl'
+      rcases List.mem_cons.mp hx with rfl | hx'
+      · exact Nat.le_of_lt (List.rel_of_pairwise_cons hp hmem)
+      · exact ih (List.Pairwise.of_cons hp) last hl' x hx'
+
+/-- strictly ascending list whose first element is not 0 and whose last is at most `L` -/
+theorem ascending_inRange (L : ℕ) (l : List ℕ) (hs : l.Pairwise (· < ·))
+    (h1 : ¬ (l.head? == some 0) = true)
+    (h2 : ¬ ((l.getLast?.map fun last => decide (last > L)).getD false) = true) :
+    ∀ j ∈ l, InRange L j := by
+  intro j hj
+  cases l with
+  | nil => simp at hj
+  | cons a as =>
+    have ha : a ≠ 0 := by
+      intro e; apply h1; simp [e]
+    have hlow : a ≤ j := by
+      rcases List.mem_cons.mp hj with rfl | hj'
+      · exact Nat.le_refl _
+      · exact Nat.le_of_lt (List.rel_of_pairwise_cons hs hj')
+    cases hl : (a :: as).getLast? with
+    | none => simp at hl
+    | some last =>
+      have hle := pairwise_le_getLast (a :: as) hs last hl j hj
+      have hlast : last ≤ L := by
+        rw [hl] at h2
+        simpa using h2
+      unfold InRange
+      omega
+
+theorem forIssued_ne_panic (γ : F) (m : OvfMode) (L : ℕ) (hL : SizeOk L) (issued : List ℕ)
+    (hs : issued.Pairwise (· < ·)) : forIssued ringOps γ m L issued ≠ .panic := by
+  unfold forIssued
+  split_ifs with h1 h2 h3
+  · simp
+  · simp
+  · exact Outcome.map_ne_panic _ (mirror_ne_panic m L hL issued (ascending_inRange L issued hs h1 h2))
+  · simp
+
 end Reg
 
 /-! ## primary protocol (verifier, issuance): lemmas of the owner of `Model/Primary.lean` go here -/
